@@ -42,7 +42,7 @@ CONSTANTS
                 \* alphabet would otherwise starve syncs). No effect on the state graph.
 
 FeatAll == {"detach", "reattach", "remove", "compact", "force", "deactivate", "pushonly",
-            "gcoff", "build", "evict", "undo", "lateattach", "idle"}
+            "gcoff", "build", "evict", "undo", "lateattach", "idle", "fail", "nopres"}
 
 Doc == "d1"
 Clients == {ClientSeq[i] : i \in DOMAIN ClientSeq}
@@ -163,8 +163,9 @@ Log(step) == hist' = Append(hist, step)
 \* syncs; then the other initial clients attach in rank order.
 SetupOver == srv.setup /\ \A x \in Clients \ Late : cl[x].sess >= 1
 
-Attach(c, gcoff) ==
+Attach(c, gcoff, nopres) ==
   /\ ~done /\ cl[c].active /\ cl[c].st \in {"none", "detached"}
+  /\ nopres => "nopres" \in Feat
   /\ IF c = First /\ ~srv.exists THEN TRUE
      ELSE IF ~SetupOver
           THEN srv.setup /\ c \notin Late /\ cl[c].sess = 0 /\ ~gcoff /\ \A x \in Clients \ Late : Rank(x) < Rank(c) => cl[x].sess >= 1
@@ -181,7 +182,7 @@ Attach(c, gcoff) ==
          r2 == ApplyResponse(c, r1, h.srv, h.res)
      IN /\ srv' = h.srv
         /\ cl' = [cl EXCEPT ![c] = [r2 EXCEPT !.st = IF h.res.ok /\ r2.st # "removed" THEN "attached" ELSE @]]
-  /\ Log([a |-> "attach", c |-> c, d |-> Doc, opt |-> [gcoff |-> gcoff]])
+  /\ Log([a |-> "attach", c |-> c, d |-> Doc, opt |-> [gcoff |-> gcoff, nopres |-> nopres]])
   /\ UNCHANGED done
 
 \* the first client creates the containers and the initial content (InitEdits
@@ -200,8 +201,16 @@ Setup ==
 
 Edit(c, op) ==
   /\ ~done /\ SetupOver /\ c \in Editors /\ cl[c].st = "attached" /\ cl[c].edits < MaxEdits
-  /\ cl' = [cl EXCEPT ![c] = [NewChange(c, @, TRUE) EXCEPT !.edits = @ + 1, !.undo = @ + 1, !.redo = 0]]
+  /\ cl' = [cl EXCEPT ![c] = [NewChange(c, @, op.k # "pres.set") EXCEPT !.edits = @ + 1, !.undo = @ + 1, !.redo = 0]]
   /\ Log([a |-> "edit", c |-> c, d |-> Doc, op |-> op])
+  /\ UNCHANGED <<srv, done>>
+
+\* document.Update whose updater fails after the operation ran on the clone:
+\* all-or-nothing (C08) - no change, nothing else moves
+FailedEdit(c, op, how) ==
+  /\ ~done /\ SetupOver /\ "fail" \in Feat /\ c \in Editors /\ cl[c].st = "attached" /\ cl[c].edits < MaxEdits
+  /\ cl' = [cl EXCEPT ![c] = [@ EXCEPT !.edits = @ + 1]]
+  /\ Log([a |-> "edit", c |-> c, d |-> Doc, op |-> op, opt |-> [fail |-> how]])
   /\ UNCHANGED <<srv, done>>
 
 Undo(c) ==
@@ -292,8 +301,9 @@ Finish == ~done /\ AllEdited /\ done' = TRUE /\ UNCHANGED <<srv, cl, hist>>
 
 Next ==
   \/ \E c \in Clients :
-       \/ Attach(c, FALSE) \/ Attach(c, TRUE)
+       \/ \E g, np \in BOOLEAN : Attach(c, g, np)
        \/ \E op \in Alphabet : Edit(c, op)
+       \/ \E op \in Alphabet, how \in {"err", "panic"} : FailedEdit(c, op, how)
        \/ \E w \in 1..SyncWeight : Sync(c, FALSE)
        \/ Sync(c, TRUE)
        \/ Detach(c) \/ Remove(c) \/ Deactivate(c) \/ Undo(c) \/ Redo(c)
